@@ -31,6 +31,7 @@ func c06Parent(c *mon.Ctx) {
 	sh := shards("plain", "random", n, "-n", fmt.Sprint(per))
 	sh = append(sh, shards("plain", "catalogue", 4)...)
 	sh = append(sh, shards("plain", "corpus", 1)...)
+	sh = append(sh, shards("plain", "comments", 2, "-n", fmt.Sprint(per/2))...)
 	for i := range sh {
 		sh[i].Timeout = 30 * time.Minute
 	}
@@ -211,6 +212,98 @@ func c06Child(a *ChildArgs) {
 			c06One(a, "", sql, true, i)
 			if i < 2 {
 				a.Rec.Sample("random", 2, map[string]string{"sql": trunc(sql, 300)})
+			}
+		}
+	case "comments":
+		// the comment-carrying path (formatter.Format): statements decorated with leading / trailing / inline comments
+		avoid := mon.AvoidFeatures()
+		base := a.Seed*7919 + int64(a.Shard)*104729 + 5
+		for i := 0; i < a.N; i++ {
+			seed := base + int64(i)*15485863
+			r := rand.New(rand.NewSource(seed))
+			g := gen.New(rand.New(rand.NewSource(seed)), avoid)
+			nst := 1 + r.Intn(2)
+			var sb strings.Builder
+			nc := 0
+			comment := func() string {
+				nc++
+				if r.Intn(2) == 0 {
+					return fmt.Sprintf("-- c%d", nc)
+				}
+				return fmt.Sprintf("/* c%d */", nc)
+			}
+			for st := 0; st < nst; st++ {
+				x := g.Statement(1)
+				for k := r.Intn(3); k > 0; k-- { // leading comments, each on its own line
+					sb.WriteString(comment() + "\n")
+				}
+				for ti, tk := range x.Toks {
+					if ti > 0 {
+						sb.WriteString(" ")
+					}
+					sb.WriteString(tk.S)
+					if r.Intn(6) == 0 { // trailing comment(s) on this line, then a line break
+						for k := 1 + r.Intn(2); k > 0; k-- {
+							c := comment()
+							sb.WriteString(" " + c)
+							if strings.HasPrefix(c, "--") {
+								break
+							}
+						}
+						sb.WriteString("\n")
+					}
+				}
+				sb.WriteString(";")
+				for k := r.Intn(3); k > 0; k-- { // comments after the semicolon
+					c := comment()
+					sb.WriteString(" " + c)
+					if strings.HasPrefix(c, "--") {
+						sb.WriteString("\n")
+					}
+				}
+				sb.WriteString("\n")
+			}
+			sql := sb.String()
+			a.Rec.Count("evaluations", 1)
+			a.Rec.Distinct("inputs", sql)
+			t0, err := gosqlx.Parse(sql)
+			if err != nil {
+				continue
+			}
+			want := dump.Tree(t0)
+			for _, up := range []bool{false, true} {
+				for _, compact := range []bool{false, true} {
+					f := formatter.New(formatter.Options{IndentSize: 2, Uppercase: up, Compact: compact})
+					name := fmt.Sprintf("formatter.Format{up=%v,compact=%v}", up, compact)
+					y, err := f.Format(sql)
+					wit := map[string]interface{}{"sql": sql, "serialiser": name, "output": y}
+					if err != nil {
+						a.Rec.Viol("C06/comments/formatter.Format#serialiser-error", "serialiser-error", firstLine(err.Error()), wit)
+						break
+					}
+					t2, err := gosqlx.Parse(y)
+					if err != nil {
+						a.Rec.Viol("C06/comments/formatter.Format#output-rejected", "output-rejected", firstLine(err.Error())+" | output: "+trunc(y, 300), wit)
+						break
+					}
+					if d := dump.Diff(want, dump.Tree(t2)); d != "" {
+						a.Rec.Viol("C06/comments/formatter.Format#tree-changed"+dump.DiffKey(d), "tree-changed", d, wit)
+						break
+					}
+					y2, err := f.Format(y)
+					if err != nil || y2 != y {
+						wit["second"] = y2
+						a.Rec.Viol("C06/comments/formatter.Format#not-idempotent", "formatting already formatted output returns it unchanged", firstDiff(y, y2), wit)
+						break
+					}
+					// every comment written is still there
+					for k := 1; k <= nc; k++ {
+						if !strings.Contains(y, fmt.Sprintf("c%d", k)) {
+							a.Rec.Viol("C06/comments/formatter.Format#comment-lost", "comments survive formatting", fmt.Sprintf("comment c%d is missing from the output", k), wit)
+							break
+						}
+					}
+				}
 			}
 		}
 	case "corpus":
